@@ -114,6 +114,11 @@ def build(seed: int):
     add(("join_on_window", "verb"), ["FunctionTypeError"], [other, dict(id=oid, op="join", src=tid, right="oth", on=[{"fn": "equal", "args": [{"fn": "row_number", "args": [], "arrange": [good]}, {"col": ["oth", "id"]}]}], how="inner")])
     add(("join_on_unrelated_column", "verb"), ["ValueError"], [other, dict(id="oth2", op="source", table="src_other"),
                                                               dict(id=oid, op="join", src=tid, right="oth", on=[{"fn": "equal", "args": [good, {"col": ["oth2", "id"]}]}], how="inner")])
+    # a reference whose source table is still an ancestor but whose *column* is gone must not be accepted in `on`
+    add(("join_on_dropped_column", "summarize"), ["ValueError"],
+        [dict(id="grp2", op="group_by", src=tid, cols=[good]), dict(id="smz", op="summarize", src="grp2", cols=[["m_", {"fn": "count_star", "args": []}]]),
+         other, dict(id=oid, op="join", src="smz", right="oth", on=[{"fn": "equal", "args": [other_col, {"col": ["oth", "id"]}]}], how="inner")]
+        ) if (other_col := next(({"col": [tid, n]} for n, c in T.visible if n != name_i and T.scope[c].cls == "int"), None)) is not None else None
     add(("join_suffix_duplicate", "user_suffix"), ["ValueError"], [dict(id="oth", op="source", table="src_dup"),
                                                                    dict(id=oid, op="join", src="oth", right="oth_al", on=[{"fn": "equal", "args": [{"col": ["oth", "id"]}, {"col": ["oth_al", "id"]}]}], how="inner", suffix="_x"),
                                                                    ], )
